@@ -425,8 +425,9 @@ def highest_lowest(a: Activate) -> None:
     # inside the pop loop: unconditional trigger of rules[popped index] and count += 1
     for n, c, t in trig:
         recv = t[1][1]
-        idx_ok = recv[0] == "sub" and recv[2][0] == "sub" and recv[2][2] == ("const", 1) and \
-            recv[2][1][0] == "call" and recv[2][1][1] == ("global", "heapq.heappop")
+        idx = recv[2] if recv[0] == "sub" else ("const", None)
+        idx_ok = (idx[0] == "sub" and idx[2] == ("const", 1) and idx[1][0] == "call" and idx[1][1] == ("global", "heapq.heappop")) or \
+            (idx[0] == "unpack" and idx[2] == (1,) and idx[1][0] == "call" and idx[1][1] == ("global", "heapq.heappop"))
         check.require(idx_ok, "K1", a.construct("popped-index"),
                       f"the triggered rule is rules[index] with index the second component of the popped key "
                       f"(found {show(recv)})", loc(fn, n))
